@@ -234,3 +234,48 @@ fn c08_canary() {
     assert!(r[0] != new[0], "canary: must be reported as failing");
     std::mem::forget((p, r));
 }
+
+// ---------------------------------------------------------------- C08.b the digest checks themselves
+// MD5's compression function is replaced by a cheap mixing function (abstraction): the real verify_* must
+// accept exactly when the digest of the data under that function equals the declared digest.
+fn md5_mix(state: &mut [u32; 4], blocks: &[[u8; 64]]) {
+    let mut i = 0;
+    while i < blocks.len() {
+        let b = &blocks[i];
+        state[0] = state[0].wrapping_add(u32::from_le_bytes([b[0], b[1], b[2], b[3]])).rotate_left(5);
+        state[1] ^= state[0].wrapping_add(u32::from_le_bytes([b[4], b[5], b[6], b[7]]));
+        state[2] = state[2].wrapping_add(state[1]) ^ (b[56] as u32);
+        state[3] = state[3].wrapping_add(state[2]).rotate_left(3);
+        i += 1;
+    }
+}
+
+#[kani::proof]
+#[kani::unwind(70)]
+#[kani::stub(std::fmt::format, vio::fmt_stub)]
+#[kani::stub(md5::compress::compress, md5_mix)]
+fn c08b_verify_accepts_iff_digest_matches() {
+    use md5::{Digest, Md5};
+    let data: [u8; 3] = kani::any();
+    let declared_before: [u8; 16] = kani::any();
+    let declared_after: [u8; 16] = kani::any();
+    let mut p = copy_patch(3, 3, Vec::new());
+    p.header.md5_before = declared_before;
+    p.header.md5_after = declared_after;
+    let mut h = Md5::new();
+    h.update(&data);
+    let real: [u8; 16] = h.finalize().into();
+    let i: usize = kani::any();
+    kani::assume(i < 16);
+    let vb = p.verify_base(&data);
+    let va = p.verify_patched(&data);
+    kani::cover!(vb.is_ok());
+    kani::cover!(declared_after[0] == 0 && va.is_err());
+    if vb.is_ok() {
+        assert!(declared_before[i] == real[i], "base file accepted although its digest differs from the declared one");
+    }
+    if va.is_ok() {
+        assert!(declared_after[i] == real[i], "patched result accepted although its digest differs from the declared one");
+    }
+    std::mem::forget((p, vb, va));
+}
